@@ -147,6 +147,8 @@ DEFAULT_DEFS: List[Def] = [
         openTag='',
         closeTag='',
         expand=Expand(macros=True),
+        # A complete single-line definition (one that was escaped) does not open a multi-line definition.
+        verify=lambda match: macros.LINE_DEF.search(match[0]) is None,
         delimiterFilter=openingDelimiterFilter,
         contentFilter=macroDefContentFilter,
     ),
